@@ -7,10 +7,11 @@
   (unbounded, as a constant folder does) agrees with the run-time result exactly when the unbounded result is in the
   type's range — otherwise the run-time result is the wrapped one, so a compiler must wrap (or reject) and never keep
   the unbounded value.  The compiler's own folding/propagation code (typechecker big.Int folding, HIR consteval,
-  MIR constant use, 8/16-bit register arithmetic) is NOT modelled: checks/c09.py executes pairs (program, rewritten
+  MIR constant use) is NOT modelled; the 8/16-bit register arithmetic of the QBE emitter IS (regenerated selection table, below): checks/c09.py executes pairs (program, rewritten
   program) on both back ends and compares acceptance and output with each other and with this semantics.
 -/
 import FerretVerif.Proofs.Rewrite
+import FerretVerif.Props.C01
 
 namespace FerretVerif.C09
 open FerretVerif.Core
@@ -41,5 +42,26 @@ theorem fold_sound_iff_in_range {bits : Nat} (h : 1 ≤ bits) (s : Bool) (v : In
 example : wrapInt 8 true (127 + 1) = -128 ∧ ¬ InRange 8 true 128 := by
   refine ⟨by decide, ?_⟩
   unfold InRange; decide
+
+/-! ### 8/16-bit register arithmetic: a result computed at run time is the folded one
+
+A constant folder computes `wrap (a op b)`; the emitted code computes on 32-bit temporaries.  For every row of the regenerated
+selection table (the IL the current compiler emits) the temporary after the sequence is the CANONICAL temporary of that folded
+value — the same bits a load of the folded constant from memory produces — so no later use (compare, widen, divide, print) can
+tell an early-evaluated operand from a late one. -/
+open FerretVerif.QbeSem in
+theorem runtime_arith_is_folded (r : QbeSem.Row) (hr : r ∈ Gen.qbeSel) (hk : r.kind = .bin) (a b : Int)
+    (ha : r.src.inRange a) (hb : r.src.inRange b) (w : Int) (hw : specBin r.op r.src a b = some w)
+    (hno : ¬ ((r.op = "div" ∨ r.op = "rem") ∧ r.src.signed = true ∧ overflows r.src a b)) :
+    exec [canon r.src a, canon r.src b] [] r.seq = some (canon r.src w) :=
+  C01.sel_binary_correct r hr hk a b w ha hb hw hno
+
+open FerretVerif.QbeSem in
+/-- and a cast executed at run time is the cast folded: wrap to the target type, in canonical form -/
+theorem runtime_cast_is_folded (r : QbeSem.Row) (hr : r ∈ Gen.qbeSel) (hk : r.kind = .cast) (a : Int) (ha : r.src.inRange a) :
+    exec [canon r.src a] [] r.seq = some (canon r.dst (r.dst.wrap a)) := by
+  have := C01.sel_table_correct r hr [a] (by intro x hx; simp at hx; subst hx; exact ha) (canon r.dst (r.dst.wrap a))
+    (by simp only [rowSpec, hk])
+  simpa using this
 
 end FerretVerif.C09
